@@ -203,7 +203,7 @@ Qed.
 Lemma Pair8_new cs o th i n : Pair8 o -> Pair8 (obs_step cs o (th, ENewInst i n)).
 Proof.
   intros HP. unfold obs_step. cbn [fst snd].
-  set (y0 := mkOI n (o_cnt o) 0 false None None false false false false false false false 0 false false _ false false).
+  set (y0 := mkOI n (o_cnt o) 0 false None None false false false false false false false 0 false false _ false false false []).
   intros Hd Hz a b ya yb Hab Ea Eb Hn. cbn in Hd, Hz.
   apply orb_false_iff in Hd. destruct Hd as [Hd Hdup]. apply orb_false_iff in Hz. destruct Hz as [Hz Hzom].
   rewrite refresh_get in Ea, Eb. cbn [oi RecordSet.set] in Ea, Eb. cbn in Ea, Eb.
